@@ -24,6 +24,9 @@ type WriteOp struct {
 	Chunks []string `json:"chunks,omitempty"` // hex
 	Code   int      `json:"code,omitempty"`
 	Reason string   `json:"reason,omitempty"` // hex
+	// PingAfterChunk (writer only): issue one Ping after this many chunks have been written (0 = never) — a
+	// control frame between the frames of a message (frames already written may still sit in the write buffer)
+	PingAfterChunk int `json:"ping_after_chunk,omitempty"`
 }
 
 type WriteCase struct {
@@ -105,12 +108,35 @@ func runWriteCase(c *WriteCase) *writeObs {
 		ctx := wd.ctx
 		hasPing := false
 		for _, op := range c.Ops {
-			if op.Kind == "ping" {
+			if op.Kind == "ping" || op.PingAfterChunk > 0 {
 				hasPing = true
 			}
 		}
 		if hasPing {
 			conn.CloseRead(ctx) // something must read for Ping to see its pong
+		}
+		doPing := func() error {
+			before := len(sink.snapshot())
+			pd := make(chan error, 1)
+			go func() { pd <- conn.Ping(ctx) }()
+			// wait for the ping frame to reach the wire, then answer it like a peer would
+			var pf *RawFrame
+			for i := 0; i < 20000 && pf == nil; i++ {
+				fs, _ := parseRawFrames(sink.snapshot()[before:])
+				for k := range fs {
+					if fs[k].Op == 9 {
+						pf = &fs[k]
+					}
+				}
+				if pf == nil {
+					time.Sleep(100 * time.Microsecond)
+				}
+			}
+			if pf != nil {
+				pong := RawFrame{Fin: true, Op: 10, Payload: pf.Payload, Masked: !c.Client, Key: [4]byte{9, 8, 7, 6}}
+				sink.in.Write(pong.Encode())
+			}
+			return <-pd
 		}
 		for _, op := range c.Ops {
 			var err error
@@ -126,7 +152,7 @@ func runWriteCase(c *WriteCase) *writeObs {
 				var w io.WriteCloser
 				w, err = conn.Writer(ctx, websocket.MessageType(op.Typ))
 				if err == nil {
-					for _, ch := range op.Chunks {
+					for ci, ch := range op.Chunks {
 						p := unhx(ch)
 						keep := append([]byte(nil), p...)
 						_, err = w.Write(p)
@@ -136,33 +162,19 @@ func runWriteCase(c *WriteCase) *writeObs {
 						if err != nil {
 							break
 						}
+						wd.tick()
+						if op.PingAfterChunk == ci+1 {
+							if err = doPing(); err != nil {
+								break
+							}
+						}
 					}
 					if err == nil {
 						err = w.Close()
 					}
 				}
 			case "ping":
-				before := len(sink.snapshot())
-				pd := make(chan error, 1)
-				go func() { pd <- conn.Ping(ctx) }()
-				// wait for the ping frame to reach the wire, then answer it like a peer would
-				var pf *RawFrame
-				for i := 0; i < 20000 && pf == nil; i++ {
-					fs, _ := parseRawFrames(sink.snapshot()[before:])
-					for k := range fs {
-						if fs[k].Op == 9 {
-							pf = &fs[k]
-						}
-					}
-					if pf == nil {
-						time.Sleep(100 * time.Microsecond)
-					}
-				}
-				if pf != nil {
-					pong := RawFrame{Fin: true, Op: 10, Payload: pf.Payload, Masked: !c.Client, Key: [4]byte{9, 8, 7, 6}}
-					sink.in.Write(pong.Encode())
-				}
-				err = <-pd
+				err = doPing()
 			case "close":
 				go func() {
 					// let waitCloseHandshake see EOF as soon as the Close frame is on the wire
